@@ -17,7 +17,7 @@ import (
 func init() {
 	register(&Spec{ID: "C09", Title: "Passwords never cross the wire in clear when encryption is negotiated", Run: runC09,
 		Meta: core.Meta{
-			Explanation: "Absence-of-flow, decided by taint analysis over SSA (E-TAINT). R09.1: sources are all loads of dsn.Info.Password and tds.LoginConfigRemoteServer.Password in package tds; the secret may flow only (A) into rsaEncrypt's password parameter, where it may only be appended after the nonce and handed to rsa.EncryptOAEP as the message; (B) into writeString at the single call site of LoginConfig.pack that is dominated by config.Encrypt differing from all four TDS_MSG_SEC_ENCRYPT* constants (the plain-mode password slot); (C) into the Password field of the synthesised first remote server. Every other use — an argument of fmt/log, a buffer or BytesChannel write, a store into another field or variable, a return to a caller that uses it otherwise — is a violation reported with the flow path. Control: at least one flow of each accepted kind must be found. R09.2: the OAEP call uses sha1.New(), crypto/rand.Reader, an empty label and append(nonce, secret...) (nonce first); rsaEncrypt is called with the account password, each remote password and the session key. R09.3: generateSymmetricKey returns the 32-byte buffer filled by crypto/rand.Read under the length check. R09.4 (E-CONST): the message ids for which pack leaves the password slot empty are exactly those for which Login does not take the plain flow. R09.6: in package tds no value whose type holds Info.Password or LoginConfigRemoteServer.Password (directly or through pointers, slices, maps, nested structs) is converted to an interface — the only way into fmt, log, errors or reflection, where %v of the struct would print the password. R09.5: every field object retained in the parameter slices built inside Login's remote-server loop is created in the same iteration (an object shared across iterations would make all entries carry the last ciphertext).",
+			Explanation: "Absence-of-flow, decided by taint analysis over SSA (E-TAINT). R09.1: sources are all loads of dsn.Info.Password and tds.LoginConfigRemoteServer.Password in package tds; the secret may flow only (A) into rsaEncrypt's password parameter, where it may only be appended after the nonce and handed to rsa.EncryptOAEP as the message; (B) into writeString at the single call site of LoginConfig.pack that is dominated by config.Encrypt differing from all four TDS_MSG_SEC_ENCRYPT* constants (the plain-mode password slot); (C) into the Password field of the synthesised first remote server. Every other use — an argument of fmt/log, a buffer or BytesChannel write, a store into another field or variable, a return to a caller that uses it otherwise — is a violation reported with the flow path. Control: at least one flow of each accepted kind must be found. R09.2: the OAEP call uses sha1.New(), crypto/rand.Reader, an empty label and append(nonce, secret...) (nonce first); rsaEncrypt is called with the account password, each remote password and the session key. R09.3: generateSymmetricKey returns the 32-byte buffer filled by crypto/rand.Read under the length check. R09.4 (E-CONST): the message ids for which pack leaves the password slot empty are exactly those for which Login does not take the plain flow. R09.6: in package tds no value whose type holds Info.Password or LoginConfigRemoteServer.Password (directly or through pointers, slices, maps, nested structs) is converted to an interface — the only way into fmt, log, errors or reflection, where %v of the struct would print the password. R09.7: no branch condition in package tds is computed from a password (its value, its length, a comparison), except a test whose one edge returns an error at once (a rejection decides nothing about what is sent): the bytes sent depend on a secret only through its ciphertext. R09.5: every field object retained in the parameter slices built inside Login's remote-server loop is created in the same iteration (an object shared across iterations would make all entries carry the last ciphertext).",
 			NotDecided:  "Cryptographic strength, what the standard library does with the bytes, and the length of the password (len() is not treated as a leak) are not decided.",
 			Assumptions: []string{"rsa.EncryptOAEP does not expose its message", "package tds is the only code that writes login bytes"},
 		}})
@@ -30,6 +30,7 @@ func runC09(r *core.Run) {
 	r.Rule("R09.3", "session key: 32 fresh random bytes", 1, false)
 	r.Rule("R09.4", "pack and Login agree on which message ids mean 'encrypted'", 1, false)
 	r.Rule("R09.5", "objects retained across a loop in Login are created per iteration", 2, false)
+	r.Rule("R09.7", "no branch condition is computed from a password", 1, false)
 	r.Rule("R09.6", "no value of a type that holds a password field is converted to an interface in package tds", 1, false)
 
 	srcA := p.Field("dsn", "Info", "Password")
@@ -102,6 +103,72 @@ func runC09(r *core.Run) {
 	c09Switches(r)
 	c09LoopFresh(r)
 	c09Containers(r, []*types.Var{srcA, srcB}, te.funcs)
+	c09NoSecretBranches(r, te)
+}
+
+// c09NoSecretBranches: R09.7. What is written to the wire must not depend on the VALUE of a secret other than through
+// the ciphertext: no branch condition in package tds is computed from a password (its bytes, its length, a
+// comparison with "") — e.g. skipping the encryption for an empty password shows an observer which accounts have one.
+func c09NoSecretBranches(r *core.Run, te *taintEngine) {
+	var dep func(v ssa.Value, d int) ssa.Value
+	dep = func(v ssa.Value, d int) ssa.Value {
+		if d > 5 || v == nil {
+			return nil
+		}
+		if te.tainted[v] != "" {
+			return v
+		}
+		switch x := v.(type) {
+		case *ssa.BinOp:
+			if t := dep(x.X, d+1); t != nil {
+				return t
+			}
+			return dep(x.Y, d+1)
+		case *ssa.UnOp:
+			return dep(x.X, d+1)
+		case *ssa.Convert:
+			return dep(x.X, d+1)
+		case *ssa.Call:
+			if arg, isLen := isLenCall(x); isLen {
+				return dep(arg, d+1)
+			}
+		}
+		return nil
+	}
+	n := 0
+	for _, fn := range te.funcs {
+		for _, b := range fn.Blocks {
+			if len(b.Instrs) == 0 {
+				continue
+			}
+			iff, ok := b.Instrs[len(b.Instrs)-1].(*ssa.If)
+			if !ok {
+				continue
+			}
+			n++
+			if t := dep(iff.Cond, 0); t != nil {
+				// a test that only REJECTS (one edge returns an error at once) decides nothing about what is sent
+				rejects := false
+				for _, sb := range b.Succs {
+					if ret, isRet := sb.Instrs[len(sb.Instrs)-1].(*ssa.Return); isRet {
+						rv := core.RetVals(ret)
+						if len(rv) > 0 && core.IsErrorType(rv[len(rv)-1].Type()) && !core.IsNil(rv[len(rv)-1]) {
+							rejects = true
+						}
+					}
+				}
+				if rejects {
+					continue
+				}
+				pos := iff.Cond.Pos()
+				if pos == token.NoPos {
+					pos = fn.Pos()
+				}
+				r.Bad("R09.7", core.FuncName(fn)+": branch on "+core.KExpr(iff.Cond), pos, "a branch condition is computed from a password ("+core.Expr(t)+"): what is sent then depends on the secret's value (for instance an empty password goes out as a NULL field instead of a ciphertext, telling an observer which entries have no password)", te.pathOf(t)...)
+			}
+		}
+	}
+	r.Check(n > 0, "R09.7", "no branch in package tds depends on a password", token.NoPos, fmt.Sprintf("%d branches inspected", n), "no branches seen")
 }
 
 // holdsSecret: values of type t carry one of the secret fields (directly, or through pointers, slices, arrays, maps
